@@ -543,6 +543,21 @@ impl Prop for C10 {
         Ok(())
     }
 
+    fn sanitize(case: &mut Case) {
+        case.all_sequences = false;
+        match &mut case.src {
+            Src::Bits(b) => b.clamp(3000),
+            Src::Multi(_, v) => v.truncate(60),
+            Src::Ints(_, v) => v.truncate(80),
+            Src::Wm(v) => {
+                v.truncate(80);
+                for x in v.iter_mut() {
+                    *x %= 64;
+                }
+            }
+        }
+    }
+
     fn assumptions() -> Vec<String> {
         vec![
             "structures are small (up to ~3000 bits / 80 items) so that the whole rest of every iterator is drained and compared".into(),
